@@ -76,6 +76,9 @@ func (checker) Transition(c modedit.Case) string {
 	return ""
 }
 
+// KeyExtra: the C15 oracles depend on the implementation state only.
+func (checker) KeyExtra(c modedit.Case) string { return "" }
+
 func Run(r *fw.Run) {
 	depth := r.Pick(2, 3)
 	ops := modedit.ModOps(r.Thorough())
